@@ -1154,6 +1154,62 @@ class _OrderFlow(Flow):
             return frozenset()
         return super()._expr_inner(fi, e, env)
 
+    def _analyse(self, fi) -> None:
+        """core/flow.py binds the target of a `for` weakly (old tags | element tags) at the loop header, for the body as well as for
+        the code after the loop.  Inside the body the target is always freshly bound: a loop variable that re-uses the name of an
+        unordered collection (`group = list(a_set)` ... `for group in sorted_groups:`) is what the iterable yields and nothing
+        else.  Same worklist as the base class; the body edge of a loop gets the strongly updated state, the exit edge the weak one."""
+        from core.cfg import ENTRY
+
+        cfg = self.cfg(fi)
+        init: dict[str, frozenset] = {}
+        for p in fi.param_names:
+            t = self.param_tags.get((fi.fq, p), frozenset())
+            if t:
+                init[p] = t
+        if not hasattr(self, "_final_env"):
+            self._final_env = {}
+        if fi.outer is not None:
+            for k, v in self._final_env.get(fi.outer.fq, {}).items():
+                init.setdefault(k, v)
+        states: dict[object, dict[str, frozenset]] = {ENTRY: init}
+        work = [ENTRY]
+        order = 0
+        final_env: dict[str, frozenset] = dict(init)
+        while work:
+            n = work.pop()
+            order += 1
+            if order > 20000:
+                break
+            st = states.get(n, {})
+            out = dict(st)
+            body_out = None
+            if isinstance(n, ast.AST):
+                for var, t in st.items():
+                    self.var_at[(id(n), var)] = t
+                self._stmt(fi, n, out)
+                if isinstance(n, (ast.For, ast.AsyncFor)):
+                    body_out = dict(st)
+                    self._assign(fi, n.target, self._it(self._expr(fi, n.iter, body_out)), body_out, n.iter)
+                for k, v in out.items():
+                    if v:
+                        final_env[k] = final_env.get(k, frozenset()) | v
+            for m in cfg.g.successors(n):
+                o = body_out if body_out is not None and cfg.g[n][m].get("labels") == {True} else out
+                old = states.get(m)
+                if old is None:
+                    states[m] = dict(o)
+                    work.append(m)
+                else:
+                    changed = False
+                    for k, v in o.items():
+                        if not v <= old.get(k, frozenset()):
+                            old[k] = old.get(k, frozenset()) | v
+                            changed = True
+                    if changed:
+                        work.append(m)
+        self._final_env[fi.fq] = final_env
+
     def _yield_in_unordered_loop(self, fi, node) -> bool:
         for a in ancestors(node):
             if a is fi.node:
@@ -1420,7 +1476,7 @@ def run_r3(repo: Repo, res: Result, order: "Order | None" = None) -> None:
         good_loops = {l["f"].name for l in fo.loops() if not l["both"]} - bad_loops
         want_bad_sinks = {"joined_directly", "joined_after_copy", "joined_from_loop", "joined_through_helper", "joined_after_copy_of_iterable", "joined_unsorted_inside_tuple", "joined_unsorted_inside_yielded_tuple", "joined_from_generator_over_set"}
         want_bad_loops = {"grow_and_shrink", "grow_and_shrink_through_helper"}
-        if bad_sinks != want_bad_sinks or not {"joined_sorted", "joined_after_inplace_sort", "joined_sorted_inside_tuple", "joined_sorted_inside_yielded_tuple"} <= good_sinks:
+        if bad_sinks != want_bad_sinks or not {"joined_sorted", "joined_after_inplace_sort", "joined_sorted_inside_tuple", "joined_sorted_inside_yielded_tuple", "joined_loop_variable_reuses_name"} <= good_sinks:
             raise AnalysisError(f"C15.R3 fixture: unordered text sinks not recognised exactly (flagged {sorted(bad_sinks)}, want {sorted(want_bad_sinks)}; accepted {sorted(good_sinks)})")
         if bad_loops != want_bad_loops or not {"two_passes"} <= good_loops or "ordered_pass" in bad_loops:
             raise AnalysisError(f"C15.R3 fixture: order-dependent loop bodies not recognised exactly (flagged {sorted(bad_loops)}, want {sorted(want_bad_loops)}; accepted {sorted(good_loops)})")
@@ -1751,7 +1807,7 @@ def selections(repo: Repo, order: "Order | None" = None) -> list[dict]:
     for f in repo.all_functions():
         if isinstance(f.node, ast.Lambda) or not any(isinstance(n, (ast.For, ast.AsyncFor, ast.While)) for n in own_nodes(f.node)):
             continue
-        v = inline_view(repo, f, T)
+        v = sel.hoisted_view(repo, f, T)  # the inlined view, test-and-set helpers called inside `if` tests expanded as well
         for info in sel.loops_of(v):
             src = getattr(info.loop, "_src", None)
             if src is not None and src[0] != f:
@@ -1851,7 +1907,7 @@ def run_r5(repo: Repo, res: Result, order: "Order | None" = None) -> None:
     tmp, frepo = _fixture_repo("selection.py")
     try:
         flagged = {s["f"].name for s in selections(frepo)[1:]}
-        want = {"bad_first_physical_location_wins", "bad_case_insensitive_first_wins", "bad_parents_retained_so_far", "bad_parents_retained_so_far_through_helper", "bad_first_three", "bad_listing_prefix_filter", "bad_flag_loop_over_retained"}
+        want = {"bad_first_physical_location_wins", "bad_case_insensitive_first_wins", "bad_parents_retained_so_far", "bad_parents_retained_so_far_through_helper", "bad_first_three", "bad_listing_prefix_filter", "bad_flag_loop_over_retained", "bad_test_and_set_helper_decides"}
         if flagged != want:
             raise AnalysisError(f"C15.R5 fixture: order-dependent selections not recognised exactly (flagged {sorted(flagged)}, want {sorted(want)})")
         res.add("C15.R5", "fixture::engine/rules/c15_fixtures/selection.py", True, f"positive fixture recognised: {sorted(flagged)}; de-duplication on the element, sorted input, tests against the complete input, grouping and closure idioms accepted", nontrivial=False)
